@@ -1155,6 +1155,43 @@ def field_args(rng, m, force=None):
     return a
 
 
+def respell(rng, argv):
+    """The same command line written differently: other spellings of the
+    frequency option, option units in another order (the relative order of
+    repeated options is kept, which is all the program's semantics depend
+    on), an explicit default."""
+    a = list(argv)
+    r = rng.random()
+    if a[:1] == ['-f'] and len(a) > 1:
+        if r < 0.15:
+            a[0:2] = ['--frequency=' + a[1]]
+        elif r < 0.3:
+            a[0:2] = ['--frequency', a[1]]
+        elif r < 0.4:
+            a[0:2] = ['-f' + a[1]]
+    if rng.random() < 0.25:
+        units = _units(a)
+        groups = [[a[i] for i in u] for u in units]
+        names = [g[0].split('=')[0] for g in groups]
+        order = list(range(len(groups)))
+        rng.shuffle(order)
+        # keep the relative order of units that carry the same option name
+        byname = {}
+        for idx in sorted(order):
+            byname.setdefault(names[idx], []).append(idx)
+        taken = {n: 0 for n in byname}
+        out = []
+        for idx in order:
+            n = names[idx]
+            src = byname[n][taken[n]]
+            taken[n] += 1
+            out += groups[src]
+        a = out
+    if rng.random() < 0.1 and not any(x.startswith('--boundary') for x in a) and any(x.startswith('--medium') for x in a):
+        a += ['--boundary=linear']
+    return a
+
+
 BAD_ARGVS = [
     ['-w', '10,0,0,0,1,0,0'],                              # rc 23 wire params
     ['--helix', '40,0,.3,1e-3,0.11,0.11'],                 # rc 23
@@ -1259,6 +1296,7 @@ def gen_cli_task(rng, maxops=8, env=None, kinds=None, model=None, pool=None):
                 argv += ['--mininec-version', rng.choice(['9', '12', '13'])]
         if rng.random() < 0.15:
             argv += ['-T']
+        argv = respell(rng, argv)
         cmds.append(dict(argv=argv, model=m, pool=pool, probes=probes))
     target = rng.randrange(3, maxops + 1)
     feats = set()
